@@ -2,6 +2,7 @@
 //!
 //! Ops (one self-contained request per line):
 //!   cm ty=n|s p=.. t=..            confusion matrix + all derived scores (usize / bool / String labels)
+//!   cms lp=.. p=.. t=..            the same through a `CountedTargets` receiver with a stale label cache `lp`
 //!   roc s=<f32 bits> y=0/1         ROC curve, thresholds, AUC
 //!   logloss s=<f32 bits> y=0/1     log-loss (libm `ln`: tolerant token)
 //!   reg  w=64|32 p=.. a=.. b=..    regression scores on lattice inputs, compared bit for bit
@@ -20,6 +21,17 @@ use std::collections::BTreeSet;
 use std::fmt::Display;
 use std::panic::{catch_unwind, AssertUnwindSafe};
 
+/// success-like outcome counter for the coverage floors of conf "floors" (`ok:*`): the last case
+/// answered `ok` (and, for `full`, returned every score: no `none` token)
+fn tally(em: &mut Em, key: &str, full: bool) {
+    if em.only.is_some() {
+        return;
+    }
+    if em.outs.last().map_or(false, |o| o.starts_with("ok") && !(full && o.contains("none"))) {
+        em.count(&format!("ok:{}", key));
+    }
+}
+
 fn h32c(x: f32) -> String {
     if x.is_nan() { "nan".into() } else { hex32(x) }
 }
@@ -29,8 +41,8 @@ fn tl(x: f64) -> String {
 
 // ------------------------------------------------------------------ confusion matrix
 
-/// `ConfusionMatrix` keeps its fields private; its `Debug` output prints the members and every
-/// cell, which is what is parsed here (public API only).
+/// the `Debug` output of a `ConfusionMatrix` prints the members and every cell; parsed only for the
+/// soft cross-check `cm:debug=...` (the cells are read through the hook, see `cm_parts`)
 fn parse_cm<A: Display>(cm: &ConfusionMatrix<A>) -> (Vec<String>, Vec<Vec<u64>>) {
     let s = format!("{:?}", cm);
     let lines: Vec<&str> = s.lines().filter(|l| !l.trim().is_empty()).collect();
@@ -43,6 +55,15 @@ fn parse_cm<A: Display>(cm: &ConfusionMatrix<A>) -> (Vec<String>, Vec<Vec<u64>>)
         let row: Vec<u64> = l.split(" | ").skip(1).map(|x| x.trim().parse::<f32>().expect("cell") as u64).collect();
         cells.push(row);
     }
+    (members, cells)
+}
+
+/// members and cells through the read-only hook `linfa::metrics::verif_hooks_c05` (no dependence on
+/// the `Debug` layout); cells are `f32` counts, exact below 2^24
+fn cm_parts<A: Clone>(cm: &ConfusionMatrix<A>) -> (Vec<A>, Vec<Vec<u64>>) {
+    use linfa::metrics::verif_hooks_c05::{cm_cells, cm_members};
+    let members = cm_members(cm).to_vec();
+    let cells = cm_cells(cm).rows().into_iter().map(|r| r.iter().map(|x| if *x >= 0.0 && x.fract() == 0.0 { *x as u64 } else { u64::MAX }).collect()).collect();
     (members, cells)
 }
 
@@ -79,25 +100,27 @@ impl CmObs {
 }
 
 fn observe_cm<L: CmLabel>(form: usize, pred: &[L], truth: &[L], tok: &dyn Fn(&L) -> String) -> Result<CmObs, String> {
-    let cm = match forms::call_cm(form, pred, truth) {
+    observe_cm_of(forms::call_cm(form, pred, truth), pred, truth, &[], tok)
+}
+
+/// `extra`: labels that may appear among the members without occurring in `pred` or `truth`
+fn observe_cm_of<L: CmLabel>(res: linfa::error::Result<ConfusionMatrix<L>>, pred: &[L], truth: &[L], extra: &[L], tok: &dyn Fn(&L) -> String) -> Result<CmObs, String> {
+    let cm = match res {
         Ok(cm) => cm,
         Err(linfa::Error::MismatchedShapes(_, _)) => return Err("err MismatchedShapes".into()),
         Err(e) => return Err(format!("err {:?}", e)),
     };
-    let (disp, cells) = parse_cm(&cm);
-    // map the displayed member back to the canonical token of the label
-    let mut all: Vec<&L> = pred.iter().chain(truth.iter()).collect();
-    all.sort();
-    all.dedup();
-    let members: Vec<String> = disp.iter().map(|d| all.iter().find(|l| format!("{}", l) == *d).map(|l| tok(l)).unwrap_or_else(|| format!("?{}", d))).collect();
+    let _ = extra;
+    let (mem, cells) = cm_parts(&cm);
+    let members: Vec<String> = mem.iter().map(|l| tok(l)).collect();
     let ova_cms = cm.split_one_vs_all();
     let ovo_cms = cm.split_one_vs_one();
     Ok(CmObs {
         members,
         cells,
         scores: [cm.accuracy(), cm.precision(), cm.recall(), cm.f1_score(), cm.f_score(0.5), cm.mcc(), cm.f_score(2.0)],
-        ova: ova_cms.iter().map(|c| parse_cm(c).1).collect(),
-        ovo: ovo_cms.iter().map(|c| parse_cm(c).1).collect(),
+        ova: ova_cms.iter().map(|c| cm_parts(c).1).collect(),
+        ovo: ovo_cms.iter().map(|c| cm_parts(c).1).collect(),
         ovap: ova_cms.iter().map(|c| c.precision()).collect(),
         ovar: ova_cms.iter().map(|c| c.recall()).collect(),
         ovaf: ova_cms.iter().map(|c| c.f1_score()).collect(),
@@ -218,6 +241,7 @@ fn op_cm<L: CmLabel>(em: &mut Em, form: usize, ty: &str, kind: &str, pred: Vec<L
     }
     let valid = pred.len() == truth.len() && !pred.is_empty();
     let class = format!("{}:{}", prefix, kind);
+    let okkey = if form == 0 { format!("cm:{}", kind.split(':').next().unwrap_or("")) } else { format!("cmf:{}", forms::CM_FORM_NAMES[form]) };
     let body = |ctx: &mut Ctx| {
         let o = match observe_cm(form, &pred, &truth, tok) {
             Ok(o) => o,
@@ -242,6 +266,90 @@ fn op_cm<L: CmLabel>(em: &mut Em, form: usize, ty: &str, kind: &str, pred: Vec<L
         em.case_valid(op, &class, body)
     } else {
         em.case(op, body)
+    }
+    if valid {
+        tally(em, &okkey, false);
+    }
+    // the `Debug` rendering is not part of the property: whether it still shows the same cells is only
+    // counted (distribution key `cm:debug=...`), never alarmed on
+    if form == 0 && valid && em.only.is_none() && kind.starts_with("random") {
+        let same = catch_unwind(AssertUnwindSafe(|| forms::call_cm(0, &pred, &truth).ok().map(|cm| parse_cm(&cm).1 == cm_parts(&cm).1))).ok().flatten().unwrap_or(false);
+        em.count(if same { "cm:debug=shows_cells" } else { "cm:debug=layout_changed" });
+    }
+}
+
+/// op `cms lp=.. p=.. t=..`: a `CountedTargets` receiver whose cached label counts are stale (taken
+/// on `cached`, targets overwritten afterwards).  The matrix is built over the cached label set and the
+/// truth's labels, and samples whose predicted label is in neither are skipped silently.  The
+/// statement speaks of the label sets of the two vectors, so only the requests whose cache has exactly
+/// the labels of `pred` are inside it (full oracle); the others are compared with the model
+/// (`confusionWith`, theorem `confusion_with_labels_sum`) and checked against a direct count.
+fn op_cm_stale(em: &mut Em, cached: Vec<usize>, pred: Vec<usize>, truth: Vec<usize>) {
+    let tok = |x: &usize| x.to_string();
+    let mut lp: Vec<usize> = cached.clone();
+    lp.sort();
+    lp.dedup();
+    let pset: BTreeSet<usize> = pred.iter().copied().collect();
+    let lset: BTreeSet<usize> = lp.iter().copied().collect();
+    let kind = if pset == lset { "same" } else if pset.is_subset(&lset) { "covering" } else { "dropping" };
+    em.count(&format!("cms:{}", kind));
+    let op = format!("cms lp={} p={} t={}", list(lp.iter(), |x| x.to_string()), list(pred.iter(), |x| x.to_string()), list(truth.iter(), |x| x.to_string()));
+    let class = format!("cms:cache={}", kind);
+    let same = kind == "same";
+    let body = |ctx: &mut Ctx| {
+        let o = match observe_cm_of(forms::call_cm_stale(&cached, &pred, &truth), &pred, &truth, &lp, &tok) {
+            Ok(o) => o,
+            Err(e) => return e,
+        };
+        if same {
+            oracle_cm(ctx, "cms", &pred, &truth, &tok, &o);
+        } else {
+            let mut cs: Vec<usize> = lset.iter().copied().chain(truth.iter().copied()).collect::<BTreeSet<usize>>().into_iter().collect();
+            if cs.len() == 2 {
+                cs.reverse();
+            }
+            let want_members: Vec<String> = cs.iter().map(|l| l.to_string()).collect();
+            ctx.require(o.members == want_members, "members_sorted_union", &class, || format!("members {:?}, want {:?} (cached labels {:?})", o.members, want_members, lp));
+            let want: Vec<Vec<u64>> = cs.iter().map(|a| cs.iter().map(|b| pred.iter().zip(truth.iter()).filter(|(p, t)| *p == a && *t == b).count() as u64).collect()).collect();
+            ctx.require(o.cells == want, "cells_count_pairs", &class, || format!("cells {:?}, want {:?}", o.cells, want));
+            let kept = pred.iter().filter(|p| cs.contains(p)).count() as u64;
+            let s: u64 = o.cells.iter().flatten().sum();
+            ctx.require(s == kept, "cells_sum_known_labels", &class, || format!("cells sum to {}, {} samples carry a known label", s, kept));
+        }
+        o.line()
+    };
+    if same {
+        em.case_valid(op, &class, body)
+    } else {
+        em.case(op, body)
+    }
+    tally(em, &class, false);
+}
+
+fn gen_cm_stale(em: &mut Em, rng: &mut Rng) {
+    let reps = if em.thorough() { 3000 } else { 300 };
+    for r in 0..reps {
+        let (pred, truth) = random_cm_pair(rng);
+        let n = pred.len();
+        let a = pred.iter().chain(truth.iter()).copied().max().unwrap_or(0) + 2;
+        let mut cached = pred.clone();
+        match r % 3 {
+            0 => rng.shuffle(&mut cached), // same label set
+            1 => {
+                // a label of the data is missing from the cache: overwrite every occurrence of one label
+                let gone = pred[rng.below(n)];
+                let by = rng.below(a);
+                cached.iter_mut().for_each(|v| if *v == gone { *v = by });
+            }
+            _ => {
+                // further labels in the cache
+                for _ in 0..(1 + rng.below(3)) {
+                    let i = rng.below(n);
+                    cached[i] = rng.below(a);
+                }
+            }
+        }
+        op_cm_stale(em, cached, pred, truth);
     }
 }
 
@@ -422,9 +530,8 @@ fn op_roc(em: &mut Em, form: usize, kind: &str, s: Vec<f32>, y: Vec<bool>, perm:
             ctx.require(first == Some((0.0, 0.0)), "roc_starts_at_origin", &class, || format!("curve starts at {:?}: {:?}", first, o.curve));
             ctx.require(last == Some((1.0, 1.0)), "roc_ends_at_one", &class, || format!("curve ends at {:?}", last));
             ctx.require(o.curve.windows(2).all(|w| w[0].0 <= w[1].0 && w[0].1 <= w[1].1), "roc_monotone", &class, || format!("curve not monotone: {:?}", o.curve));
-            let mut distinct = sorted.clone();
-            distinct.dedup();
-            ctx.require(o.thr == distinct, "roc_thresholds_distinct_scores", &class, || format!("thresholds {:?}, distinct scores {:?}", o.thr, distinct));
+            // the thresholds are not part of the statement: they are compared with the model only
+            // (theorem `roc_curve_def`: the distinct scores in increasing order), not by the oracle
             // Mann-Whitney with ties one half
             let mut mw = 0.0f64;
             for i in 0..s.len() {
@@ -457,6 +564,9 @@ fn op_roc(em: &mut Em, form: usize, kind: &str, s: Vec<f32>, y: Vec<bool>, perm:
         em.case_valid(op, &class, body)
     } else {
         em.case(op, body)
+    }
+    if covered {
+        tally(em, &(if form == 0 { "roc:covered".to_string() } else { format!("rocf:{}", forms::BIN_FORM_NAMES[form]) }), false);
     }
 }
 
@@ -599,6 +709,9 @@ fn op_logloss(em: &mut Em, form: usize, kind: &str, s: Vec<f32>, y: Vec<bool>, p
         em.case_valid(op, &class, body)
     } else {
         em.case(op, body)
+    }
+    if valid {
+        tally(em, &class, false);
     }
 }
 
@@ -831,6 +944,9 @@ fn oracle_reg_col(ctx: &mut Ctx, prefix: &str, w: usize, col: usize, a: &[f64], 
 /// `form` 0: arrays against arrays (ops `reg` / `regt`); other forms (ops `regf` / `regtf`):
 /// datasets as receiver and / or argument, views, an n x 1 matrix through the multi-target trait
 fn op_reg(em: &mut Em, form: usize, exact: bool, kind: &str, w: usize, p: usize, a: Vec<Vec<f64>>, b: Vec<Vec<f64>>, perm: Vec<usize>) {
+    // a reversed view is summed by ndarray in memory order, i.e. backwards: the left-to-right model
+    // agrees only up to rounding there, so that form is always compared with tolerance
+    let exact = exact && !(p == 1 && forms::REG1_FORM_NAMES[form].contains("reversed"));
     let name = match (exact, form == 0) {
         (true, true) => "reg",
         (false, true) => "regt",
@@ -868,7 +984,10 @@ fn op_reg(em: &mut Em, form: usize, exact: bool, kind: &str, w: usize, p: usize,
         }
         reg_line(w, exact, &obs)
     };
-    em.case(op, body)
+    em.case(op, body);
+    if n > 0 {
+        tally(em, &(if form == 0 { format!("{}:f{}", name, w) } else { format!("{}:{}", name, fname) }), true);
+    }
 }
 
 /// lattice inputs: multiples of 1/4 in [-8, 8] (+16 now and then); every sum, square and
@@ -986,6 +1105,11 @@ fn gen_reg_forms(em: &mut Em, rng: &mut Rng) {
         for form in 1..nforms {
             for r in 0..reps {
                 let w = if rng.chance(1, 3) { 32 } else { 64 };
+                // the reversed-view form only in f64: ndarray sums a reversed view backwards, and in f32 the
+                // difference to the left-to-right model, amplified by the cancellation in `1 - q` of r2 /
+                // explained variance, can exceed the relative tolerance of `regtf` (seen: 1.8e-5, thorough
+                // seed 2); f32 with a non-trivial layout is covered by the strided form
+                let w = if single && forms::REG1_FORM_NAMES[form].contains("reversed") { 64 } else { w };
                 let wide = rng.chance(1, 4);
                 let p = if single { 1 } else { 2 + rng.below(if wide { 5 } else { 2 }) };
                 if r % 3 != 2 {
@@ -1079,6 +1203,9 @@ fn op_sil(em: &mut Em, form: usize, w: usize, kind: &str, x: Vec<Vec<f64>>, l: V
     } else {
         em.case(op, body)
     }
+    if covered {
+        tally(em, &class, false);
+    }
 }
 
 /// `wide`: up to 6 dimensions and 7 clusters, half-integer or generic coordinates
@@ -1142,23 +1269,30 @@ fn gen_sil(em: &mut Em, rng: &mut Rng) {
 
 // ------------------------------------------------------------------ Pearson
 
-fn observe_pearson(w: usize, x: &[Vec<f64>], p: usize) -> Vec<f64> {
+fn observe_pearson(form: usize, w: usize, x: &[Vec<f64>], p: usize) -> Vec<f64> {
     let n = x.len();
     if w == 64 {
         let rec = Array2::from_shape_fn((n, p), |(i, j)| x[i][j]);
-        DatasetBase::from(rec).pearson_correlation().get_coeffs().to_vec()
+        forms::call_pearson::<f64>(form, rec)
     } else {
         let rec = Array2::from_shape_fn((n, p), |(i, j)| x[i][j] as f32);
-        DatasetBase::from(rec).pearson_correlation().get_coeffs().iter().map(|v| *v as f64).collect()
+        forms::call_pearson::<f32>(form, rec).iter().map(|v| *v as f64).collect()
     }
 }
 
-/// ops `pearson` (f64) and `pearson32` (f32 records; values exactly representable in f32)
-fn op_pearson(em: &mut Em, w: usize, kind: &str, x: Vec<Vec<f64>>, p: usize, perm: Vec<usize>) {
-    let name = if w == 32 { "pearson32" } else { "pearson" };
-    let op = format!("{} x={} p={}", name, list2(x.iter().map(|r| r.iter()), |v| hex64(*v)), p);
+/// ops `pearson` (f64), `pearson32` (f32 records; values exactly representable in f32) and
+/// `pearsonf form=k` (f64; column-major records, strided views, a dataset that also has targets)
+fn op_pearson(em: &mut Em, form: usize, w: usize, kind: &str, x: Vec<Vec<f64>>, p: usize, perm: Vec<usize>) {
+    let name = if form != 0 { "pearsonf" } else if w == 32 { "pearson32" } else { "pearson" };
+    let args = format!("x={} p={}", list2(x.iter().map(|r| r.iter()), |v| hex64(*v)), p);
+    let op = if form != 0 { format!("pearsonf form={} {}", form, args) } else { format!("{} {}", name, args) };
     let n = x.len();
     em.count(&format!("{}:{}:p={}", name, kind, if p <= 4 { p.to_string() } else { "5+".to_string() }));
+    if form != 0 {
+        em.count(&format!("pearsonf:form={}", forms::PEARSON_FORM_NAMES[form]));
+    }
+    let class_s = if form != 0 { format!("pearsonf:{}", forms::PEARSON_FORM_NAMES[form]) } else { name.to_string() };
+    let name = class_s.as_str();
     // Error bound.  With u the unit roundoff and M = max|x|, the centred columns carry an absolute error
     // <= (n+1)u*M, the dot products / variances a relative error <= (n+2)u of sums of non-negative or
     // Cauchy-Schwarz-bounded terms, so the absolute error of r = cov/(s_i s_j) is <= c*(n+4)*u*(1 + M/s)
@@ -1171,7 +1305,7 @@ fn op_pearson(em: &mut Em, w: usize, kind: &str, x: Vec<Vec<f64>>, p: usize, per
     let has_offset = x.iter().flatten().any(|v| v.abs() > 50.0);
     let tol = if w == 64 { 1e-9 } else if has_offset { 2e-4 } else { 5e-5 };
     let body = |ctx: &mut Ctx| {
-        let got = observe_pearson(w, &x, p);
+        let got = observe_pearson(form, w, &x, p);
         // textbook: cov / (std std), pairs (i, j), i < j, row-major
         let col = |j: usize| -> Vec<f64> { x.iter().map(|r| r[j]).collect() };
         let mut want = vec![];
@@ -1190,12 +1324,13 @@ fn op_pearson(em: &mut Em, w: usize, kind: &str, x: Vec<Vec<f64>>, p: usize, per
             ctx.require(got.iter().zip(want.iter()).all(|(g, w)| close(*g, *w, tol)), "pearson_def", name, || format!("coefficients {:?} want {:?}", got, want));
             // one permutation applied to all features together (a permutation of the observations)
             let xp: Vec<Vec<f64>> = perm.iter().map(|i| x[*i].clone()).collect();
-            let got2 = observe_pearson(w, &xp, p);
+            let got2 = observe_pearson(form, w, &xp, p);
             ctx.require(got2.len() == got.len() && got.iter().zip(got2.iter()).all(|(g, h)| close(*g, *h, tol)), "perm_invariant", name, || format!("permuted observations {:?} give {:?} instead of {:?}", perm, got2, got));
         }
         format!("ok {}", list(got.iter(), |v| tl(*v)))
     };
-    em.case_valid(op, name, body)
+    em.case_valid(op, name, body);
+    tally(em, name, false);
 }
 
 fn random_pearson(rng: &mut Rng, w: usize) -> (Vec<Vec<f64>>, usize, &'static str) {
@@ -1237,14 +1372,23 @@ fn gen_pearson(em: &mut Em, rng: &mut Rng) {
         let (x, p, kind) = random_pearson(rng, 64);
         let mut perm: Vec<usize> = (0..x.len()).collect();
         rng.shuffle(&mut perm);
-        op_pearson(em, 64, kind, x, p, perm);
+        op_pearson(em, 0, 64, kind, x, p, perm);
     }
     let reps = if em.thorough() { 2000 } else { 150 };
     for _ in 0..reps {
         let (x, p, kind) = random_pearson(rng, 32);
         let mut perm: Vec<usize> = (0..x.len()).collect();
         rng.shuffle(&mut perm);
-        op_pearson(em, 32, kind, x, p, perm);
+        op_pearson(em, 0, 32, kind, x, p, perm);
+    }
+    let reps = if em.thorough() { 500 } else { 50 };
+    for form in 1..forms::PEARSON_FORMS {
+        for _ in 0..reps {
+            let (x, p, kind) = random_pearson(rng, 64);
+            let mut perm: Vec<usize> = (0..x.len()).collect();
+            rng.shuffle(&mut perm);
+            op_pearson(em, form, 64, kind, x, p, perm);
+        }
     }
 }
 
@@ -1261,6 +1405,9 @@ fn floors(em: &mut Em) {
     for f in 1..forms::CM_FORMS {
         add(&[&format!("cmf:form={}", forms::CM_FORM_NAMES[f])], 150);
     }
+    add(&["cms:same"], 60);
+    add(&["cms:covering"], 30);
+    add(&["cms:dropping"], 30);
     add(&["roc:lowest_score_zero"], 1000);
     add(&["roc:lowest_score_positive"], 300);
     add(&["roc:tied_scores"], 1000);
@@ -1268,7 +1415,7 @@ fn floors(em: &mut Em) {
         add(&[&format!("rocf:form={}", forms::BIN_FORM_NAMES[f])], 250);
     }
     add(&["logloss:"], 300);
-    for f in [0usize, 2, 3, 4] {
+    for f in [0usize, 2, 3, 4, 5, 6] {
         add(&[&format!("loglossf:form={}", forms::BIN_FORM_NAMES[f])], 80);
     }
     add(&["reg:lattice", ":f64:"], 400);
@@ -1276,8 +1423,12 @@ fn floors(em: &mut Em) {
     add(&["reg:lattice", "p=4+"], 5);
     add(&["regt:generic"], 300);
     for f in 1..forms::REG1_FORMS {
-        add(&[&format!("regf:form={}", forms::REG1_FORM_NAMES[f])], 20);
-        add(&[&format!("regtf:form={}", forms::REG1_FORM_NAMES[f])], 10);
+        // the reversed-view form is always sent as `regtf` (see `op_reg`)
+        let rev = forms::REG1_FORM_NAMES[f].contains("reversed");
+        if !rev {
+            add(&[&format!("regf:form={}", forms::REG1_FORM_NAMES[f])], 20);
+        }
+        add(&[&format!("regtf:form={}", forms::REG1_FORM_NAMES[f])], if rev { 30 } else { 10 });
     }
     for f in 1..forms::REGM_FORMS {
         add(&[&format!("regf:form={}", forms::REGM_FORM_NAMES[f])], 20);
@@ -1293,6 +1444,9 @@ fn floors(em: &mut Em) {
     add(&["pearson:"], 250);
     add(&["pearson32:", "p=5+"], 30);
     add(&["pearson32:"], 120);
+    for f in 1..forms::PEARSON_FORMS {
+        add(&[&format!("pearsonf:form={}", forms::PEARSON_FORM_NAMES[f])], 30);
+    }
     let sums: Vec<(String, u64, u64)> = need
         .iter()
         .map(|(subs, min)| (subs.join("*"), em.dist.iter().filter(|(k, _)| subs.iter().all(|s| k.contains(s.as_str()))).map(|(_, v)| *v).sum::<u64>(), *min))
@@ -1308,6 +1462,7 @@ fn floors(em: &mut Em) {
 pub fn run(em: &mut Em, rng: &mut Rng) {
     gen_cm(em, rng);
     gen_cm_forms(em, rng);
+    gen_cm_stale(em, rng);
     gen_roc(em, rng);
     gen_logloss(em, rng);
     gen_binary_forms(em, rng);
